@@ -42,9 +42,25 @@ def gen_cases(rng, tier):
             if not s.get("quad") and rng.random() < 0.5:
                 guesses.append({"target": s["name"], "kind": "const", "val": ocpgen.rnd(rng, -2, 2)})
         spec["initial"] = guesses
-        phase = rng.choice(["before", "after_transcription", "after_solve"])
-        if spec["method"]["cls"] in ("MS", "SS") and spec["method"].get("intg") not in ("rk", "expl_euler"):
+        phase = rng.choice(["before", "after_transcription", "after_solve", "after_edit"])
+        if spec["method"]["cls"] in ("MS", "SS") and spec["method"].get("intg") not in ("rk", "expl_euler") \
+                and phase != "after_edit":
             phase = "before"
+        edit = None
+        if phase == "after_edit":
+            # save of an OCP that was transcribed and then edited (the transcription is stale at save time)
+            kind = rng.choice(["subject_to", "add_objective", "solver", "method"])
+            edit = {"kind": kind}
+            if kind == "subject_to":
+                edit["constraint"] = ocpgen.gen_constraint(rng, spec, 77, grids=["control"], allow_offsets=False)
+            elif kind == "add_objective":
+                edit["term"] = ocpgen.gen_objective(rng, spec, 1, allow=["at_tf", "sum"])[0]
+            elif kind == "method":
+                m2 = copy.deepcopy(spec["method"])
+                m2["M"] = 3 - m2.get("M", 1) if m2.get("M", 1) in (1, 2) else 1
+                if m2["cls"] == "Spline":
+                    m2.pop("M", None)
+                edit["method"] = m2
         maxit = rng.choice([0, 1, 2, 3])
         spec["solver_options"] = {"ipopt.max_iter": maxit, "ipopt.print_level": 0, "print_time": False,
                                   "ipopt.hessian_approximation": "limited-memory"}
@@ -58,7 +74,7 @@ def gen_cases(rng, tier):
                 elif spec["controls"]:
                     u = rng.choice(spec["controls"])
                     updates.append({"op": "set_initial", "name": u["name"], "value": ocpgen.rnd(rng, -2, 2)})
-        cases.append({"spec": spec, "phase": phase, "updates": updates, "seed": rng.getrandbits(32),
+        cases.append({"spec": spec, "phase": phase, "updates": updates, "seed": rng.getrandbits(32), "edit": edit,
                       "solve_loaded": rng.random() < 0.5})
     # multi-stage problems (stages declared directly and cloned from a template, parent variable / parameter, couplings)
     from . import c12
@@ -193,7 +209,29 @@ def run_case(case):
         b = C.call("declare", build.build_ocp, spec)
         obs = None
         stats0 = None
-        if phase != "before":
+        if phase == "after_edit":
+            C.call("transcribe", lambda: b.ocp._transcribed)
+            ed = case["edit"]
+            spec = copy.deepcopy(spec)
+            b.spec = spec
+            if ed["kind"] == "subject_to":
+                C.call("subject_to(transcribed)", build.declare_constraint, b, ed["constraint"])
+                spec["constraints"].append(ed["constraint"])
+            elif ed["kind"] == "add_objective":
+                C.call("add_objective(transcribed)", b.stage.add_objective, b.ca(ed["term"]))
+                spec["objective"].append(ed["term"])
+            elif ed["kind"] == "solver":
+                opts = dict(spec["solver_options"])
+                opts["ipopt.max_iter"] = (opts["ipopt.max_iter"] + 1) % 4
+                spec["solver_options"] = opts
+                C.call("solver(transcribed)", b.ocp.solver, "ipopt", opts)
+            else:
+                C.call("method(transcribed)", b.ocp.method, build.make_method(ed["method"]))
+                spec["method"] = ed["method"]
+                for p_ in spec["params"]:
+                    pass
+            res["counters"]["saved_with_stale_transcription"] = 1
+        elif phase != "before":
             obs = engine.Observed(spec, b)
         if phase == "after_solve":
             try:
